@@ -10,6 +10,17 @@ Tie: T + X.
      (c) per route: the code's access decision = Coq `allows`.
 Oracle: the property itself on the implementation — every (route, caller, ctx) the path-derived policy refuses must end in
 an HTTP error attributable to an access check with no database write, for every database-answer sequence explored.
+
+List endpoints (jobs / job groups / batches listings; harness/translate/c14_lists.py, c14_lists_plug.py, harness/impl/c14_lists.py,
+coq/theories/Routes/ListModel.v + ListLemmas.v): their scope is ONE conjunct of a WHERE clause assembled as text from the search terms.
+  T  the builders (query_v1.py, query_v2.py, the two inline builders of front_end.py) are translated, fail-closed, into
+     coq/generated/C14/Lists.v: scope conjuncts, per-branch term conditions, negation / bracket wrappers, as item lists (brackets
+     resolved, AND/OR/NOT kept, atoms opaque); ListLemmas.v proves for ALL term lists that the clause read with SQL precedence implies
+     the scope conjuncts.
+  X  every statement the REAL builders emit for the enumerated query language has exactly the structure of the generated model
+     (v1_where / v2_where evaluated by vm_compute), and ListModel.run agrees with the minisql expression parser (MySQL precedence).
+  Oracle  the real listing handlers, full decorator stacks, on a 7-batch / 4-billing-project minisql database: every fetched row and
+     every listed entry must belong to the URL's batch / job group and to a billing project of the caller.
 """
 import json
 import os
@@ -32,16 +43,35 @@ META = dict(
                'property does (public whitelist; authenticated+active otherwise; member for read/cancel/delete; owner for '
                'add/commit/close; developer-or-auth for billing administration), and a refused request leaves the state unchanged. '
                'The literal property is proved FALSE for GET /metrics (known finding). The tie runs the real handlers and the real '
-               'gear.auth decorators for all 64 combinations per route.',
+               'gear.auth decorators for all 64 combinations per route. '
+               'LIST ENDPOINTS (jobs, job groups, batches, completed batches, jobs-for-billing listings; query languages v1 and v2): for the '
+               'WHERE-clause builders regenerated from query_v1.py / query_v2.py / front_end.py, for EVERY list of search terms (every branch of '
+               'the term chain, any number of states of a state keyword, negated or not; for v2 ANY conditions returned by the Query classes), '
+               'every paging / recursion flag, and every text with the same top-level operands and keywords (atoms and bracket contents '
+               'arbitrary), the clause read with SQL precedence (OR < AND < NOT) is true only if the scope conjuncts are: jobs.batch_id = URL '
+               'batch AND committed AND job group (or descendant) of the URL; billing_project_users.user = caller (v1: AND its project = the '
+               'batch\'s); job_groups.batch_id = URL batch AND child of the URL group. An unbracketed OR-join is proved to leak '
+               '(C14_unbracketed_or_leaks).',
     level_note='Partial: the owner / membership filters are recognised syntactically (SQL text `user = %s` / `user_cs = %s` bound to the '
-               'caller, result tested before any other database access); list endpoints that filter rows inside their SQL are outside '
-               'the model; the database and the auth service are fakes; HAIL_TERRA single-tenant mode is excluded.',
+               'caller, result tested before any other database access); the database and the auth service are fakes; HAIL_TERRA '
+               'single-tenant mode is excluded. List endpoints: proved = the boolean structure of the emitted WHERE text implies the scope '
+               'conjuncts; only checked by the run (real handlers on a minisql database, every search term of both query languages alone / '
+               'negated / in sampled combinations, 3 callers x 7 batches): that the `%s` of the scope atoms are bound to the URL batch / '
+               'the caller, the JOIN conditions (v2 batch listing: membership row joined on the batch\'s billing project), what the Query '
+               'classes of query.py put inside their brackets, the response conversion, and that ListModel.run is MySQL\'s precedence '
+               '(compared with the minisql expression parser on every emitted clause).',
     partial=True,
 )
 TRUSTED = ['translator harness/translate/c14_routes.py (Python ast -> route table; syntactic SQL filter recognition)',
            'harness/impl/c14_routes.py: fake aiohttp requests (aiohttp.test_utils.make_mocked_request), fake auth service, fake '
            'database that answers user-filtered SELECTs from a one-batch world and scripts the others',
-           'loader stubs for aiohttp_session (get_session replaced by a dict), jinja2/sass (UI rendering is not exercised)']
+           'loader stubs for aiohttp_session (get_session replaced by a dict), jinja2/sass (UI rendering is not exercised)',
+           'translator harness/translate/c14_lists.py (Python ast of the query builders -> item lists; SQL text -> bracket tree with '
+           'opaque atoms: a maximal keyword-free chunk that is not a single bracket group)',
+           'harness/minisql + harness/batchdb/fakedb.py as the database of the list oracle; harness/impl/c14_lists.py rewrite_sql (CTE '
+           'inlined as derived table, SELECT STRAIGHT_JOIN hint dropped, `(a, b) IN (SELECT c1, c2 FROM t WHERE w)` -> EXISTS, JOIN USING '
+           '-> ON, JSON_EXTRACT(doc, \'$[0]\') supplied in Python, hailtop parse_timestamp_msecs replaced by datetime.fromisoformat); '
+           'render_template replaced by a capture of the page context']
 ASSUMPTIONS = ['AuthServiceAuthenticator mode (HAIL_TERRA unset); a caller is (authenticated, active, developer, username == auth)',
                'ownership = batches.user, membership = billing_project_users row of the batch\'s billing project, as seen by the SQL filters',
                'the aiohttp middlewares (CSRF, frozen, metrics) and the gateway are outside the model']
@@ -88,11 +118,14 @@ def _translate(ctx):
 
 
 def generate(ctx):
-    tr, text, routes = _translate(ctx)
-    ctx.write_generated('Gen.v', text)
-    for n in tr.notes:
-        ctx.notes.append(n)
-    lists.generate(ctx)          # coq/generated/C14/Lists.v: the WHERE-clause builders of the listing endpoints
+    # both translators run even when one fails closed, so that neither generated file is stale
+    try:
+        tr, text, routes = _translate(ctx)
+        ctx.write_generated('Gen.v', text)
+        for n in tr.notes:
+            ctx.notes.append(n)
+    finally:
+        lists.generate(ctx)          # coq/generated/C14/Lists.v: the WHERE-clause builders of the listing endpoints
 
 
 def _impl_run(ctx, depth=3):
